@@ -339,7 +339,8 @@ func TestVFC05DHCPPrograms(t *testing.T) {
 
 	// the IPv6 addresses reach the DHCPv6 half of the server (static leases,
 	// lookups by address)
-	ips := []string{"192.168.10.10", "192.168.10.11", "192.168.10.12", "192.168.10.13", "192.168.10.17", "192.168.10.40", "192.168.10.41", "192.168.10.1", "2001:db8:10::a", "2001:db8:10::b"}
+	ips := []string{"192.168.10.10", "192.168.10.11", "192.168.10.12", "192.168.10.13", "192.168.10.17", "192.168.10.40", "192.168.10.41", "192.168.10.1", "2001:db8:10::a", "2001:db8:10::b", "2001:db8:10::c"}
+	adminIPs := []string{"192.168.10.10", "192.168.10.11", "192.168.10.40", "192.168.10.41", "2001:db8:10::a", "2001:db8:10::b", "2001:db8:10::c", "2001:db8:10::a"}
 	hosts := []string{"alpha", "beta", "gamma", "Alpha", "192-168-10-10", ""}
 	rapid.Check(t, func(t *rapid.T) {
 		p := &vfC05DProgram{}
@@ -367,7 +368,14 @@ func TestVFC05DHCPPrograms(t *testing.T) {
 			n := rapid.IntRange(1, 8).Draw(t, fmt.Sprintf("a%d_len", g))
 			var steps []vfC05DStep
 			for i := 0; i < n; i++ {
-				steps = append(steps, step([]string{"static_add", "static_add", "static_remove", "static_update", "reset_leases"}, fmt.Sprintf("a%d_%d", g, i)))
+				// the administrator works on both address families, with few
+				// names, so that refused requests (address, hardware address or
+				// name taken) are as common as accepted ones
+				steps = append(steps, stepOver([]string{"static_add", "static_add", "static_add", "static_remove", "static_update", "reset_leases"},
+					fmt.Sprintf("a%d_%d", g, i), adminIPs))
+				if h := steps[len(steps)-1].Host; h != "" && rapid.Bool().Draw(t, fmt.Sprintf("a%d_%d_common_name", g, i)) {
+					steps[len(steps)-1].Host = "alpha"
+				}
 			}
 			p.Admins = append(p.Admins, steps)
 		}
